@@ -60,7 +60,9 @@ EvMism(e) ==
   \cup WalkMism(w, e.iph_next, "iph_next")
   \cup WriteMism(c, w, e.iph_write, "iph_write", 40)
   \cup (IF e.iph_len # 40 + TotalLen(c, HL) THEN {"iph_len"} ELSE {})
-  \cup (IF e.iph_set.first # sr[2] THEN {"iph_set.first"} ELSE {})
+  \cup (IF e.iph_set.first # sr[2] \/ Lnk(e.iph_set.links) # sr[1] THEN {"iph_set.first"} ELSE {})
+  \* NetHeaders::try_set_next_headers links the chain like set_next_headers does, whatever the links were before
+  \cup (IF e.iph_set.net_first # sr[2] \/ Lnk(e.iph_set.net_links) # sr[1] THEN {"net_set.links"} ELSE {})
   \cup (IF e.iph_set.et # ET_IPV6 THEN {"iph_set.ether_type"} ELSE {})
   \cup (IF e.iph_set.net_et # ET_IPV6 THEN {"net_set.ether_type"} ELSE {})
   \* IPv4 analogue
